@@ -595,6 +595,7 @@ Proof.
       destruct (w_asq_k s HW f w1 Hi1) as [z [Hz [Hr _]]]. congruence.
     + intros _ Hi. apply unlink_keys in Hi. destruct Hi as [_ Hi]. contradiction.
     + rewrite U1. congruence.
+    + intros Hi. apply unlink_keys in Hi. destruct Hi as [_ Hi]. contradiction.
 Qed.
 
 Lemma base_s_core hand f x s :
@@ -629,6 +630,8 @@ Proof.
     + intros _ Hi. destruct (akeys_In _ _ Hi) as [w1 Hi1].
       destruct (w_arq_k s HW f w1 Hi1) as [z [Hz Hr]]. congruence.
     + rewrite U6. discriminate.
+    + intros Hi. destruct (akeys_In _ _ Hi) as [w1 Hi1].
+      destruct (w_arq_k s HW f w1 Hi1) as [z [Hz Hr]]. congruence.
 Qed.
 
 Lemma InvD_with_tn hand t s : InvD hand s -> InvD hand (with_tn t s).
@@ -853,6 +856,7 @@ Proof.
   - intros T Hi. destruct (akeys_In _ _ Hi) as [w1 Hi1].
     destruct (w_arq_reg s HW T f w1 Hi1) as [z [Hz Hrz]]. congruence.
   - rewrite Hr'. discriminate.
+  - intros Hi. destruct (akeys_In _ _ Hi) as [w1 Hi1]. rewrite Es. apply (w_arq_st s HW f w1 x Hi1 Hg).
 Qed.
 
 Lemma rec_upd_cnt (P : fut -> bool) f x x' s :
@@ -947,6 +951,8 @@ Proof.
   - exact w_freed.
   - exact w_taint.
   - intros f1 y Hy Hrv Hd. change (getF f1 (setF f x s) = Some y) in Hy. getF_cases Hy; [congruence|]. eapply w_item; eauto.
+  - intros f1 w1 y Hi Hy. change (getF f1 (setF f x s) = Some y) in Hy.
+    destruct (w_arq_k f1 w1 Hi) as [z [Hz _]]. getF_cases Hy; [congruence|]. eapply w_arq_st; eauto.
 Qed.
 
 Lemma InvK_newF f x s : InvK s -> getF f s = None -> f_reg x = false -> InvK (setF f x s).
@@ -1062,6 +1068,7 @@ Proof.
   - intros _ Hi. contradiction.
   - intros _ Hi. destruct (akeys_In _ _ Hi) as [w1 Hi1]. exfalso. eapply not_in_arq_send; eauto.
   - rewrite Hreg. discriminate.
+  - intros Hi. destruct (akeys_In _ _ Hi) as [w1 Hi1]. exfalso. eapply not_in_arq_send; eauto.
 Qed.
 
 Lemma send_try_inv f w x0 s :
@@ -1163,6 +1170,7 @@ Proof.
       * intros E. exfalso. apply Hrc. exact E.
       * intros _ Hi. destruct (akeys_In _ _ Hi) as [w1 Hi1]. exfalso. eapply (not_in_arq_send s0); eauto.
       * intros _ _. cbn. rewrite Ei. discriminate.
+      * intros Hi. destruct (akeys_In _ _ Hi) as [w1 Hi1]. exfalso. eapply (not_in_arq_send s0); eauto.
     + destruct (cnt4 f x1 xw s0 (with_asq (asq s0 ++ [(f, w)]) (setF f xw s0)) (w_fnd s0 HW0) G0 eq_refl) as (E1 & E2 & E3 & E4).
       rewrite P1 in E1. rewrite P2 in E2. rewrite P3 in E3. rewrite P4 in E4.
       assert (W1 : pw_r xw = false) by (unfold pw_r; cbn; rewrite Hrv; reflexivity).
@@ -1195,4 +1203,134 @@ Proof.
         clear - K2 C1 C2. lia.
       * intros _. left. rewrite (rec_upd_cnt pw_s f x1 xc s0 HW0 G0 P3 D3).
         apply no_waiting_s; [exact HW0|]. apply (w_rc0 s0 HW0). exact Hrc.
+Qed.
+
+Lemma set_reg_same x : f_reg x = false -> set_reg false x = x.
+Proof. destruct x. cbn. intros ->. reflexivity. Qed.
+
+(* only the entry list of the send queue changes (same keys except possibly f's entry is dropped) *)
+Lemma Inv_asq asq' f s :
+  Inv s -> NoDup (akeys asq') ->
+  (forall f1 w1, In (f1, w1) asq' -> exists w2, In (f1, w2) (asq s)) ->
+  (forall f1, f1 <> f -> In f1 (akeys (asq s)) -> In f1 (akeys asq')) ->
+  (In f (akeys (asq s)) -> In f (akeys asq') \/
+     forall x, getF f s = Some x -> is_waiting (f_state x) = false) ->
+  Inv (with_asq asq' s).
+Proof.
+  intros [HD [HW HK]] Hnd Hsub Hkeep Hf. split; [|split].
+  - destruct HD. constructor; unfold nq, ncap, tot, cells in *; st_simpl; assumption.
+  - destruct HW. constructor; unfold any_live in *; st_simpl; try assumption.
+    + intros f1 w1 Hi. destruct (Hsub f1 w1 Hi) as [w2 Hi2]. apply (w_asq_k f1 w2 Hi2).
+    + intros f1 y Hy Hrg Hwy. change (getF f1 s = Some y) in Hy. specialize (w_wq f1 y Hy Hrg Hwy).
+      destruct (f_recv y); [exact w_wq|].
+      destruct (N.eq_dec f1 f) as [->|Hne]; [|apply Hkeep; assumption].
+      destruct (Hf w_wq) as [Hin|Hnw]; [exact Hin|]. rewrite (Hnw y Hy) in Hwy. discriminate.
+    + intros Hrc f1 w1 y Hi Hy. destruct (Hsub f1 w1 Hi) as [w2 Hi2]. apply (w_rc0 Hrc f1 w2 y Hi2 Hy).
+  - destruct HK. constructor; unfold nq, ncap in *; st_simpl; assumption.
+Qed.
+
+Lemma Inv_arq arq' f s :
+  Inv s -> NoDup (akeys arq') ->
+  (forall f1 w1, In (f1, w1) arq' -> exists w2, In (f1, w2) (arq s)) ->
+  (forall f1, f1 <> f -> In f1 (akeys (arq s)) -> In f1 (akeys arq')) ->
+  (In f (akeys (arq s)) -> In f (akeys arq') \/
+     forall x, getF f s = Some x -> is_waiting (f_state x) = false) ->
+  Inv (with_arq arq' s).
+Proof.
+  intros [HD [HW HK]] Hnd Hsub Hkeep Hf. split; [|split].
+  - destruct HD. constructor; unfold nq, ncap, tot, cells in *; st_simpl; assumption.
+  - destruct HW. constructor; unfold any_live in *; st_simpl; try assumption.
+    + intros f1 w1 Hi. destruct (Hsub f1 w1 Hi) as [w2 Hi2]. apply (w_arq_k f1 w2 Hi2).
+    + intros f1 y Hy Hrg Hwy. change (getF f1 s = Some y) in Hy. specialize (w_wq f1 y Hy Hrg Hwy).
+      destruct (f_recv y); [|exact w_wq].
+      destruct (N.eq_dec f1 f) as [->|Hne]; [|apply Hkeep; assumption].
+      destruct (Hf w_wq) as [Hin|Hnw]; [exact Hin|]. rewrite (Hnw y Hy) in Hwy. discriminate.
+    + intros Hsc f1 w1 y Hi Hy. destruct (Hsub f1 w1 Hi) as [w2 Hi2]. apply (w_sc0 Hsc f1 w2 y Hi2 Hy).
+    + intros T f1 w1 Hi. destruct (Hsub f1 w1 Hi) as [w2 Hi2]. apply (w_arq_reg T f1 w2 Hi2).
+    + intros f1 w1 y Hi Hy. destruct (Hsub f1 w1 Hi) as [w2 Hi2]. apply (w_arq_st f1 w2 y Hi2 Hy).
+  - destruct HK. constructor; unfold nq, ncap in *; st_simpl; assumption.
+Qed.
+
+Lemma poll_send_inv f w x s :
+  Inv s -> getF f s = Some x -> f_recv x = false -> f_live x = true -> f_done x = false ->
+  Inv (fst (poll_send f w x s)).
+Proof.
+  intros H Hg Hrv Hl Hd. unfold poll_send.
+  pose proof (proj1 (proj2 H)) as HW.
+  destruct (f_reg x) eqn:Hreg.
+  2:{ rewrite <- (set_reg_same x Hreg). apply send_try_inv; try assumption.
+      - rewrite Hreg. discriminate.
+      - intros Hi. destruct (akeys_In _ _ Hi) as [w1 Hi1].
+        destruct (w_asq_k s HW f w1 Hi1) as [z [Hz [_ Hrz]]]. congruence. }
+  rewrite (remove_first_unlink f (asq s) (w_asq_nd s HW)).
+  destruct (f_state x) eqn:Est.
+  - (* still WAITING *)
+    destruct (queued f (asq s)) eqn:Eq; cbn [fst].
+    + apply Inv_asq with f; try assumption.
+      * rewrite set_waker_keys. apply (w_asq_nd s HW).
+      * intros f1 w1 Hi. eapply set_waker_In; eauto.
+      * intros f1 _ Hi. rewrite set_waker_keys. exact Hi.
+      * intros Hi. left. rewrite set_waker_keys. exact Hi.
+    + apply InvH_wake. exact H.
+  - (* CLOSED-woken *)
+    cbn [fst].
+    set (xd := set_done (set_reg false x)).
+    assert (Heq : core_eq (with_arq (arq s) (with_asq (unlink f (asq s)) (setF f xd s)))
+                          (with_asq (unlink f (asq s)) (setF f xd s))) by core_eq_refl.
+    destruct H as [HD [_ HK]].
+    split; [|split].
+    + apply (InvD_ext [] _ _ Heq). apply InvD_upd with x; [exact HD | apply (w_fnd s HW) | exact Hg | reflexivity].
+    + apply (InvW_ext _ _ Heq). apply InvW_upd with x.
+      * exact HW.
+      * exact Hg.
+      * reflexivity.
+      * reflexivity.
+      * cbn. auto.
+      * cbn. discriminate.
+      * apply (w_arq_nd s HW).
+      * apply unlink_NoDup, (w_asq_nd s HW).
+      * intros f1 w1 Hi. left. split; [|exact Hi]. intros ->. eapply not_in_arq_send; eauto.
+      * intros f1 w1 Hi. apply unlink_In in Hi. destruct Hi as [Hi Hne]. left. auto.
+      * auto.
+      * intros f1 Hne Hi. apply unlink_keys. auto.
+      * cbn. discriminate.
+      * intros _ Hi. destruct (akeys_In _ _ Hi) as [w1 Hi1]. exfalso. eapply not_in_arq_send; eauto.
+      * intros _ Hi. apply unlink_keys in Hi. destruct Hi as [_ Hi]. contradiction.
+      * intros _ Hi. destruct (akeys_In _ _ Hi) as [w1 Hi1]. exfalso. eapply not_in_arq_send; eauto.
+      * cbn. discriminate.
+      * intros Hi. destruct (akeys_In _ _ Hi) as [w1 Hi1]. exfalso. eapply not_in_arq_send; eauto.
+    + destruct HK as [K1 K2 K3]. fold (nq s) in K2, K3. fold (ncap s) in K3.
+      destruct (cnt4 f x xd s (with_asq (unlink f (asq s)) (setF f xd s)) (w_fnd s HW) Hg eq_refl) as (C1 & C2 & C3 & C4).
+      assert (Pd : f_reg xd = false) by reflexivity.
+      destruct (preds_unreg xd Pd) as (D1&D2&D3&D4). rewrite D1 in C1. rewrite D2 in C2. rewrite D3 in C3. rewrite D4 in C4.
+      assert (Q1 : pw_r x = false) by (unfold pw_r; rewrite Hrv; reflexivity).
+      assert (Q2 : pi_r x = false) by (unfold pi_r; rewrite Hrv; reflexivity).
+      assert (Q3 : pw_s x = false) by (unfold pw_s; rewrite Est; cbn; apply andb_false_r).
+      assert (Q4 : pi_s x = false) by (unfold pi_s; rewrite Est; cbn; apply andb_false_r).
+      rewrite Q1 in C1. rewrite Q2 in C2. rewrite Q3 in C3. rewrite Q4 in C4. unfold b2n in *.
+      apply InvK_intro.
+      * exact K1.
+      * intros T1 T2. specialize (K2 T1 T2). change (nq (with_asq (unlink f (asq s)) (setF f xd s))) with (nq s).
+        clear - K2 C1 C2. lia.
+      * intros T. specialize (K3 T). change (nq (with_asq (unlink f (asq s)) (setF f xd s))) with (nq s).
+        change (ncap (with_asq (unlink f (asq s)) (setF f xd s))) with (ncap s).
+        clear - K3 C3 C4. lia.
+  - (* woken with SUCCESS_SPACE: unlink (the non-last-receiver nudge leaves the entry), then retry *)
+    assert (H1 : Inv (with_asq (unlink f (asq s)) s)).
+    { apply Inv_asq with f; try assumption.
+      - apply unlink_NoDup, (w_asq_nd s HW).
+      - intros f1 w1 Hi. apply unlink_In in Hi. exists w1. tauto.
+      - intros f1 Hne Hi. apply unlink_keys. auto.
+      - intros _. right. intros y Hy. rewrite Hg in Hy. inversion Hy; subst y. rewrite Est. reflexivity. }
+    apply send_try_inv; try assumption.
+    + intros _. rewrite Est. reflexivity.
+    + st_goal. intros Hi. apply unlink_keys in Hi. destruct Hi as [_ Hi]. contradiction.
+  - (* CANCELLED is never seen by a live future; the code treats it like WAITING *)
+    destruct (queued f (asq s)) eqn:Eq; cbn [fst].
+    + apply Inv_asq with f; try assumption.
+      * rewrite set_waker_keys. apply (w_asq_nd s HW).
+      * intros f1 w1 Hi. eapply set_waker_In; eauto.
+      * intros f1 _ Hi. rewrite set_waker_keys. exact Hi.
+      * intros Hi. left. rewrite set_waker_keys. exact Hi.
+    + apply InvH_wake. exact H.
 Qed.
